@@ -25,7 +25,7 @@ META = {
     "assumptions": ["equality of results is established twice: identity of the EUF shadow terms (same uninterpreted operations on the same operands in the same order: bit-for-bit under any arithmetic) and solver equality over the reals",
                     "alias tracking: an in-place operator or indexed store whose target shares storage with a harness-supplied input is reported as a mutation of the input"],
 }
-LEDGER = {"quick": 800, "thorough": 1200}
+LEDGER = {"quick": 940, "thorough": 1200}
 
 
 def _cells(x):
@@ -134,9 +134,10 @@ def interp_run(N, M):
     return run
 
 
-def sampler_run(N, M):
+def sampler_run(N, M, chunk=None):
     def run(C):
         C.euf = True
+        NP.nditer.chunk = chunk  # None: one chunk; c: the iterator hands the batch out in chunks of c events
         _ins, cns, tns = P4._load()
         g, E, B, F = P4.mk_cell(C, M, exact_last=True)
         le, be, u = (symarr([f"{n}{i}" for i in range(N)]) for n in ("logE", "beta", "u"))
@@ -270,8 +271,11 @@ def job_interp(N, M, tier):
     return _job(f"vec_1d_interp(N={N},M={M})", interp_run(N, M), tier)
 
 
-def job_sampler(N, M, tier):
-    return _job(f"grid_cdf_sampler(N={N},M={M})", sampler_run(N, M), tier)
+def job_sampler(N, M, tier, chunk=None):
+    try:
+        return _job(f"grid_cdf_sampler(N={N},M={M}" + (f",iterator chunks of {chunk}" if chunk else "") + ")", sampler_run(N, M, chunk), tier)
+    finally:
+        NP.nditer.chunk = None
 
 
 def job_taus(N, which, tier):
@@ -292,7 +296,7 @@ def job_too(N, tier):
 
 def jobs(tier, seed):
     M = 2 if tier == "quick" else 3
-    out = [("interp", "job_interp", {"N": 3, "M": M, "tier": tier}), ("sampler", "job_sampler", {"N": 3, "M": 2, "tier": tier}),
+    out = [("interp", "job_interp", {"N": 3, "M": M, "tier": tier}), ("sampler", "job_sampler", {"N": 3, "M": 2, "tier": tier}), ("sampler_chunk", "job_sampler", {"N": 3, "M": 2, "tier": tier, "chunk": 2}),
            ("texit", "job_taus", {"N": 2, "which": "exit", "tier": tier}), ("tenergy", "job_taus", {"N": 2, "which": "energy", "tier": tier}),
            ("altdec", "job_eas", {"N": 3, "which": "altDec", "tier": tier}), ("eas", "job_eas", {"N": 3, "which": "call", "tier": tier}),
            ("snr", "job_snr", {"N": 3, "tier": tier}), ("too", "job_too", {"N": 3, "tier": tier})]
@@ -320,7 +324,7 @@ def replay(v):
             return {"reproduced": True, "key": "generate_times modifies the caller's array", "detail": f"input {keep.tolist()} became {fr.tolist()} (observation time {g.sourceOBSTime} s)"}
         return {"reproduced": False, "key": None, "detail": "input array unchanged"}
     stage = ob.split("/", 1)[-1].split(":", 1)[0].strip()
-    real = _real_stage(stage)
+    real = _real_stage(stage, big="iterator chunks" in job)
     if real is not None:
         fn, cols = real
         bad = _real_order_check(fn, cols)
@@ -330,7 +334,7 @@ def replay(v):
     return {"reproduced": False, "key": None, "detail": "no numeric replay for this stage"}
 
 
-def _real_stage(stage):
+def _real_stage(stage, big=False):
     """-> (callable(cols dict) -> tuple of arrays, probe batch as dict of NumPy arrays) for the REAL stage, or None.
     The probe batches mix every regime of the stage (below / inside / above the table range, zero and non-zero
     entries): a replay only has to exhibit ONE failing batch."""
@@ -348,6 +352,10 @@ def _real_stage(stage):
         b0, b1 = float(T.tau_cdf_grid["beta_rad"][0]), float(T.tau_cdf_grid["beta_rad"][-1])
         beta = np.array([b0 * 0.3, b0 * 1.5, 0.5 * (b0 + b1), b1 * 1.2, b0 * 0.9, 0.3 * b1, b0 * 0.5, 0.7 * b1])
         logE = np.array([8.0, 8.3, 9.1, 9.5, 10.2, 8.7, 9.9, 10.4])
+        if big:  # more events than the iterator's 8192-element buffer: the batch is handed out in several chunks
+            nb = 8192 + 72
+            beta = np.concatenate([beta, rng.uniform(b0 * 0.5, b1 * 1.1, nb - 8)])
+            logE = np.concatenate([logE, rng.uniform(8.0, 10.4, nb - 8)])
         u = rng.uniform(0.05, 0.95, beta.size)
         if stage == "Taus.tau_energy":
             return (lambda c: (T.tau_energy(c["beta"], c["logE"], c["u"]),)), {"beta": beta, "logE": logE, "u": u}
@@ -417,13 +425,13 @@ def _real_order_check(fn, cols):
         for o, b in zip(out, base):
             if not same(o, b[perm]):
                 j = int(np.flatnonzero(~(np.isclose(o.reshape(n, -1), b[perm].reshape(n, -1), rtol=0, atol=0, equal_nan=True).all(axis=1)))[0])
-                return "results depend on the order of the events", f"permutation {perm}: position {j} (event {perm[j]}) gives {o[j]!r}, in the original batch {b[perm][j]!r}"
+                return "results depend on the order of the events", f"permutation {perm[:6]}{'...' if n > 6 else ''} of {n} events: position {j} (event {perm[j]}) gives {o[j]!r}, in the original batch {b[perm][j]!r}"
     for k in (1, n // 2, n - 1):
         o1, o2 = fn(cp(range(0, k))), fn(cp(range(k, n)))
         for a, b2, b in zip(o1, o2, base):
             got = np.concatenate([np.atleast_1d(a), np.atleast_1d(b2)])
             if not same(got, b):
-                return "results depend on how the batch is split", f"split at {k}: {got!r} vs whole batch {b!r}"
+                return "results depend on how the batch is split", f"split at {k} of {n} events: {got[:4]!r}... vs whole batch {b[:4]!r}..."
     return None
 
 
